@@ -466,7 +466,8 @@ class ObjectIdentifierPayloadDecoder(AbstractSimplePayloadDecoder):
                     subId = (subId << 7) + (nextSubId & 0x7F)
                     if index >= substrateLen:
                         raise error.SubstrateUnderrunError(
-                            'Short substrate for sub-OID past %s' % (oid,)
+                            'Short substrate for sub-OID number %d' % (
+                                len(oid) + 1,)
                         )
                     nextSubId = chunk[index]
                     index += 1
